@@ -310,6 +310,13 @@ func (s *Stream) WriteSCTP(payload []byte, ppi PayloadProtocolIdentifier) (int, 
 		return 0, ErrStreamClosed
 	}
 
+	// An empty payload produces no DATA chunk, so it must not consume a stream
+	// sequence number / message identifier (the peer would wait forever for
+	// it) nor engage the blocking-write gate.
+	if len(payload) == 0 {
+		return 0, nil
+	}
+
 	// the send could fail if the association is blocked for writing (timeout), it will left a hole
 	// in the stream sequence number space, so we need to lock the write to avoid concurrent send and decrement
 	// the sequence number in case of failure
